@@ -310,6 +310,13 @@ def lock_oracle(ops, obs):
                 nids = [json.dumps(sc.pget(n[1], sc.NID)) for n in ns]
                 if clean and len(nids) != len(set(nids)):
                     return 'nodeid-unique: %s step %d %s: two nodes of graph %s share a NodeID' % (name, i, k, sc.UNSYM[g])
+        # every graph also through the public listings, after every step, on both backends
+        if clean:
+            for name, o_b, sn_b in (('shared', so[i], ssn[i]), ('disjoint', do[i], dsn[i])):
+                if 'p' in o_b:
+                    why = sc.probe_check(name, sn_b, o_b['p'], sc.GIDS[:3])
+                    if why:
+                        return 'listing: %s step %d %s: %s' % (name, i, k, why)
         # identity properties of a persisting node never disappear, its class never changes
         cur_s = {n[0]: n[1] for n in ssn[i][0]}
         if not (k == 'merge' and op[4] and any(p in op[4] for p in IDENTITY)):
@@ -474,6 +481,8 @@ class Lock(Stream):
                 out.append(sc.merge_scenario(rng, extra=rng.randrange(0, 6)))
             elif r < 0.2:
                 out.append(sc.emptying_scenario(rng, extra=rng.randrange(0, 6)))
+            elif r < 0.27:
+                out.append(sc.late_add_scenario(rng, extra=rng.randrange(0, 6)))
             elif r < 0.75:
                 # inside the reference model's scope for long: no merge, no identity rewriting, well-formed imports
                 out.append(sc.gen_history(rng, rng.choice([6, 10, 15, 20, 30]), weights=dict(self.W, merge=0),
